@@ -133,6 +133,10 @@ def run(F, R):
     # takes the branch of the chain actually submitted (C01.F1)
     from .C03 import release_rule
     release_rule(F, R, 'P18')
+    # P22: nothing is shared by a refused submission: a token-returning submitter reports no error once its add succeeded - every
+    # check that can refuse the request precedes the add (C09.R11)
+    from .C09 import r11_no_error_after_add
+    guard(R, 'P22', 'no-error-after-add', lambda: r11_no_error_after_add(F, RuleProxy(R, {'R11': 'P22'}), M, roles))
     from .C01 import share_fn_rule
     guard(R, 'P19', 'share-fn', lambda: share_fn_rule(F, R, 'P19'))
     p14_pinned_buffers(F, R, M, _roles)
